@@ -181,13 +181,21 @@ func TestConverge(t *testing.T) {
 				loc := rapid.SampledFrom([]string{"local", "local", "everywhere", "remote"}).Draw(t, "loc")
 				mode := rapid.SampledFrom([]api.PinMode{api.PinModeRecursive, api.PinModeRecursive, api.PinModeDirect}).Draw(t, "mode")
 				k := c.String()
-				if prev := last[k]; prev != nil && prev.kind == "track" && prev.mode == api.PinModeRecursive && (prev.loc == "local" || prev.loc == "everywhere") {
-					// the cluster refuses to re-pin recursive as direct: not a reachable instruction
+				// A direct instruction for a CID the daemon holds recursively is
+				// not generated: the cluster refuses that re-pin, and when it
+				// comes about through unpin + pin it is the open finding
+				// KFDowngrade. While the recursive pin has not been carried out
+				// (its call is still queued or parked) a direct instruction is
+				// legitimate - two peers writing the same CID concurrently under
+				// CRDT consensus produce it - and cancel-and-replace must cope.
+				if mode == api.PinModeDirect && wasRecursive[k] && f.D.Get(c) == api.IPFSPinStatusRecursive {
+					if kf.Open(KFDowngrade) {
+						leg.Excl("direct track of a CID the daemon holds recursively (" + KFDowngrade + ")")
+					}
 					mode = api.PinModeRecursive
 				}
-				if mode == api.PinModeDirect && wasRecursive[k] && kf.Open(KFDowngrade) {
-					leg.Excl("direct track of a CID tracked recursively earlier in the case (" + KFDowngrade + ")")
-					mode = api.PinModeRecursive
+				if prev := last[k]; prev != nil && prev.kind == "track" && prev.mode == api.PinModeRecursive && mode == api.PinModeDirect {
+					classes["direct-over-pending-recursive"] = true
 				}
 				if prev := last[k]; prev != nil && prev.kind == "track" && prev.mode != mode && kf.Open(KFDedupeContent) {
 					leg.Excl("mode change on re-track (" + KFDedupeContent + ")")
@@ -383,38 +391,37 @@ func TestConverge(t *testing.T) {
 		// item (what an operator does); each must be sufficient on its own
 		roundForm := rapid.SampledFrom([]string{"all", "all", "each"}).Draw(t, "recoverRound")
 		script = append(script, "| recover round ("+roundForm+")")
-		if roundForm == "all" {
-			if _, err := f.T.RecoverAll(ctx); err != nil {
-				fail("RecoverAll with a healthy daemon: %v", err)
-			}
-		} else {
-			for _, c := range data {
-				if _, err := f.T.Recover(ctx, c); err != nil && err != stateless.ErrFullQueue {
-					fail("Recover: %v", err)
-				}
-			}
-		}
-		if !quiesce(f, &running, true) {
-			fail("the tracker did not become quiescent after the recover round")
-		}
-		// the queue may have been too small to take every retry at once: retry
-		// while progress is possible
-		// (with a queue of 4 slots every retry of the 3 data CIDs fits at once:
-		// one round must do)
-		extra := 8
-		if queue >= 4 {
-			extra = 0
-			classes["single-recover-round"] = true
-		}
-		for i := 0; i < extra; i++ {
+		// one round must do, unless the queue was too small to take every
+		// retry (the call says so with ErrFullQueue): then it is repeated
+		// while that is the answer
+		rounds := 0
+		for i := 0; i < 8; i++ {
+			full := false
+			rounds++
 			if roundForm == "all" {
-				f.T.RecoverAll(ctx)
+				if _, err := f.T.RecoverAll(ctx); err == stateless.ErrFullQueue {
+					full = true
+				} else if err != nil {
+					fail("RecoverAll with a healthy daemon: %v", err)
+				}
 			} else {
 				for _, c := range data {
-					f.T.Recover(ctx, c)
+					if _, err := f.T.Recover(ctx, c); err == stateless.ErrFullQueue {
+						full = true
+					} else if err != nil {
+						fail("Recover: %v", err)
+					}
 				}
 			}
-			quiesce(f, &running, true)
+			if !quiesce(f, &running, true) {
+				fail("the tracker did not become quiescent after the recover round")
+			}
+			if !full {
+				break
+			}
+		}
+		if rounds == 1 {
+			classes["single-recover-round"] = true
 		}
 		judge("after the recover round", true)
 		var cl []string
